@@ -42,6 +42,8 @@ func main() {
 	explain := flag.String("explain", "", "print a violations file in readable form")
 	effects := flag.String("effects", "", "dump calls of a function with canonical args and guard sets (authoring aid); fn[@calleespec]")
 	list := flag.Bool("v", false, "print every obligation")
+	sweep := flag.String("sweep", "", "authoring aid: list module-wide call sites of a callee spec whose verdict is discarded")
+	overlay := flag.String("overlay", "", "directory whose files replace the files of the same relative path in -repo (in memory; used by the self-test)")
 	flag.Parse()
 
 	if *explain != "" {
@@ -62,7 +64,19 @@ func main() {
 	}
 
 	t0 := time.Now()
-	p, err := load.Load(*repo, nil)
+	var ov map[string][]byte
+	if *overlay != "" {
+		ov = map[string][]byte{}
+		filepath.Walk(*overlay, func(path string, fi os.FileInfo, err error) error {
+			if err == nil && fi.Mode().IsRegular() && strings.HasSuffix(path, ".go") {
+				rel, _ := filepath.Rel(*overlay, path)
+				data, _ := os.ReadFile(path)
+				ov[filepath.Join(*repo, rel)] = data
+			}
+			return nil
+		})
+	}
+	p, err := load.Load(*repo, ov)
 	if err != nil {
 		fmt.Printf("load failed: %v\n", err)
 		if *prop != "" && *prop != "all" {
@@ -112,6 +126,17 @@ func main() {
 				}
 			}
 		}
+		return
+	}
+	if *sweep != "" {
+		c := q.NewCtx(p, "sweep", *tier)
+		n := c.ResultSweep(*sweep, nil)
+		for _, o := range c.Obs {
+			if o.Status != q.Discharged {
+				fmt.Printf("  %s | %s @%s %s\n", o.Fn, o.What, o.Site, o.Detail)
+			}
+		}
+		fmt.Println(n, "call sites")
 		return
 	}
 	if *dump != "" {
@@ -168,6 +193,9 @@ func main() {
 				}
 			}()
 			run(c)
+			if *tier == "thorough" {
+				rules.Sweep(c)
+			}
 		}()
 		known := map[string]string{}
 		for _, f := range kf.Findings {
